@@ -33,6 +33,8 @@ VARIANTS = {
     'min-dbg': ('stable', 'dev', 'std', '', None),
     'guard-rel': ('stable', 'release', 'std,rand,serde,guardalloc', '', None),
     'guard-dbg': ('stable', 'dev', 'std,rand,serde,guardalloc', '', None),
+    # the library built WITHOUT its std feature under the guard allocator (configuration-conditional size estimates)
+    'guard-nostd-rel': ('stable', 'release', 'rand,serde,guardalloc', '', None),
     'asan': ('nightly', 'release', ALLF, '-Zsanitizer=address -Cforce-frame-pointers=yes', 'x86_64-unknown-linux-gnu'),
 }
 
